@@ -14,6 +14,7 @@ From V Require Import Base.Bytes Base.Res Gen.Tables Model.Escape Spec.EscapeSpe
 From V Require Import Gen.NodesXml Model.Xml Spec.XmlLex.
 From V Require Import Gen.Cli Model.CliModel Spec.CliDoc.
 From V Require Import Gen.Tagfilter Model.Tagfilter Spec.GfmFilter.
+From V Require Import Spec.Shape.
 Extraction Language OCaml.
 Set Extraction KeepSingleton.
 
@@ -152,4 +153,8 @@ Extraction "model.ml"
   GfmFilter.disallowed_at_narrow
   GfmFilter.gfm_filter_narrow
   GfmFilter.lt_expansion
+  Shape.s2
+  Shape.s3
+  Shape.s6
+  Shape.s6w
 .
